@@ -193,7 +193,13 @@ pub fn for_property(prop: &str, tier: Tier) -> Vec<(SysCfg, RunOpts)> {
         "C09" => {
             // (a) no reachable hang state in ordinary systems
             let m = cat(&menu(&["DN", "DC2", "DB3", "FE2", "N,DC3", "C2,DN"]), &cat(&stops(), &cat(&skips(), &after_end())));
-            s.pairs(&all, if q { &l13 } else { &l04 }, &m, &m, &d, &complete2());
+            // waiting only exists in the ticket protocol of the wrapper kinds: full menu there, a reduced one elsewhere
+            let wfull: Vec<K> = if q { vec![K::IterUnk, K::ClonedIter] } else { wrapper_kinds() };
+            s.pairs(&wfull, if q { &l13 } else { &l04 }, &m, &m, &d, &complete2());
+            let mw = menu(&["DN", "DC2", "DB3", "FE2", "C2,DN", "N", "B2x2:1", "S,N,N", "N,S,C2,N", "DN,N,C2,L", "DB2,N,L,C3", "C2:1", "B3x1:0,N", "S,DB2", "I,S,FE2", "FE2,C2,H"]);
+            s.pairs(&wrapper_kinds(), if q { &l13 } else { &l04 }, &mw, &mw, &d, &complete2());
+            let mc = menu(&["DN", "DC2", "DB3", "FE2", "C2,DN", "N", "B2x2:1", "S,N,N", "N,S,C2,N", "DN,N,C2,L", "DB2,N,L,C3"]);
+            s.pairs(&counter_kinds(), if q { &l13 } else { &l04 }, &mc, &mc, &d, &complete2());
             s.triples(&all, &[2, 3], &menu3b, &d, &bounded(b3));
             // hangs after a panic of the wrapped iterator / a clone / a closure are progress violations too
             for &kind in &wrapper_kinds() {
